@@ -242,8 +242,19 @@ func ruleSpoolClose(r *core.Reporter) {
 	allInstrs(cbs, func(in ssa.Instruction) {
 		if ir.IsPlainCallTo(in, "(*"+pkgModels+".Item).Traverse") {
 			callsTraverse = true
+			// the function itself handed over instead of a closure that calls it
+			if c := ir.AsCall(in); len(c.Args) == 2 {
+				if f, isF := ir.Strip(c.Args[1]).(*ssa.Function); isF && f == cb1 {
+					okT = true
+				}
+			}
 		}
 	})
+	// the body handle read into a local before the test: the nil test and the Close are on the same value
+	bodyVal := func(v ssa.Value) bool {
+		return strings.HasSuffix(ir.Path(v), ".GetURL().GetBody()")
+	}
+	_ = bodyVal
 	if okT && callsTraverse {
 		r.Held("closeBodies", 1, "Traverse(closeBody) over the seed's tree")
 	} else {
